@@ -681,18 +681,10 @@ def design_run(pid, tier):
         r["fmindexspec_states"] = m.distinct
     if pid == "C07":
         # unbounded companion of Capacity.tla: the arithmetic core of WriteFits proved by TLAPS for all lengths
-        os.makedirs(os.path.join(vlib.CACHE, "tlc"), exist_ok=True)
-        pd = tempfile.mkdtemp(prefix="tlaps", dir=os.path.join(vlib.CACHE, "tlc"))
-        shutil.copy(os.path.join(vlib.SPEC, "CapacityProof.tla"), pd)
-        try:
-            pr = subprocess.run(["tlapm", "--cleanfp", "CapacityProof.tla"], cwd=pd, capture_output=True, text=True, timeout=600)
-            m = re.search(r"All (\d+) obligations? proved", pr.stdout + pr.stderr)
-        except (OSError, subprocess.TimeoutExpired) as ex:
-            raise RuntimeError("tlapm could not be run on CapacityProof.tla: %s" % ex)
-        if not m:
-            raise RuntimeError("CapacityProof.tla: TLAPS did not prove every obligation: " + (pr.stdout + pr.stderr)[-400:])
-        r["tlaps_obligations_proved"] = int(m.group(1))
-        shutil.rmtree(pd, ignore_errors=True)
+        r["tlaps_obligations_proved"] = vlib.tlaps("CapacityProof")
+    if pid == "C06":
+        # word counts of bitmaps saved word by word (saver and loader formulas, where they differ), for all lengths
+        r["tlaps_obligations_proved"] = vlib.tlaps("LayoutProofs")
     if pid in XBW_MODEL_PIDS:
         # mechanism model of the XBW kind: double-rooted trie, node order, alpha / last / A arrays, subPathSearch,
         # getChildren / getParent / idToStr, breadth-first ID iterators; Emit prints the arrays per member set
